@@ -112,7 +112,10 @@ func GenProject(r *core.Rng, flavour string) Project {
 		// a same-named struct with a method in every imported module; main converts
 		// values of several of them to a local interface (the lowering looks the
 		// concrete type up by bare name across the import aliases)
-		if i != 0 {
+		plain := flavour == "plain"
+		if plain {
+			// only what both back ends implement: structs, enums, loops, arrays, strings
+		} else if i != 0 {
 			fmt.Fprintf(&b, "type Box struct {\n    .V: i32\n};\n\nfn (bx: Box) size() -> i32 {\n    return bx.V + %d;\n}\n\nfn NewBox(v: i32) -> Box {\n    return { .V = v } as Box;\n}\n\n", 100*i)
 		} else if len(imports[0]) >= 1 && r.Chance(3, 4) {
 			b.WriteString("type Sized interface {\n    size() -> i32,\n};\n\n")
@@ -124,7 +127,7 @@ func GenProject(r *core.Rng, flavour string) Project {
 			}
 		}
 		// interface with several implementations (vtables, type ids)
-		if r.Chance(2, 3) {
+		if !plain && r.Chance(2, 3) {
 			k := r.Range(2, 4)
 			fmt.Fprintf(&b, "type Shape%d interface {\n    area() -> i32,\n    name() -> str,\n};\n\n", i)
 			for s := 0; s < k; s++ {
@@ -136,6 +139,11 @@ func GenProject(r *core.Rng, flavour string) Project {
 		}
 		// closures
 		nc := r.Intn(4)
+		if plain {
+			nc = 0
+			body = append(body, fmt.Sprintf("let arr := [%d, %d, %d];", r.Intn(9), r.Intn(9), r.Intn(9)), "append(&'arr, 4);", "acc = acc + arr[3] + arr[0];",
+				"let ix: i32 = 0;", "while ix < 3 {\n        acc = acc + ix;\n        ix += 1;\n    }")
+		}
 		for c := 0; c < nc; c++ {
 			fmt.Fprintf(&b, "fn Clo%d_%d(n: i32) -> i32 {\n    let base: i32 = %d;\n    let f := fn(k: i32) -> i32 {\n        return k + n + base;\n    };\n", i, c, r.Intn(100))
 			if r.Chance(1, 2) {
@@ -151,7 +159,7 @@ func GenProject(r *core.Rng, flavour string) Project {
 			body = append(body, fmt.Sprintf("acc = acc + Speed%d(Mode%d::%s);", i, i, core.Pick(r, []string{"Off", "Slow", "Fast"})))
 		}
 		// anonymous struct type
-		if r.Chance(1, 2) {
+		if !plain && r.Chance(1, 2) {
 			body = append(body, fmt.Sprintf("let an: struct { .P: i32, .Q: i32 } = { .P = %d, .Q = %d };", r.Intn(9), r.Intn(9)), "acc = acc + an.P - an.Q;")
 		}
 		// warning: constant condition
@@ -181,11 +189,15 @@ func GenProject(r *core.Rng, flavour string) Project {
 		// deliberate errors
 		if errMods[i] {
 			for e := r.Range(1, 3); e > 0; e-- {
-				kind := r.Intn(7)
-				if kind >= 4 && len(imports[i]) == 0 {
+				kind := r.Intn(9)
+				if kind >= 4 && kind <= 6 && len(imports[i]) == 0 {
 					kind = r.Intn(4)
 				}
 				switch kind {
+				case 7: // syntax error: reported by the goroutine that parses this module
+					body = append(body, fmt.Sprintf("let broken%d := ;", e))
+				case 8:
+					body = append(body, fmt.Sprintf("acc = acc + * %d;", e))
 				case 4: // private symbol of an imported module (labels in two files)
 					j := core.Pick(r, imports[i])
 					body = append(body, fmt.Sprintf("acc = acc + %s::hidden%d(%d);", ref(j), j, e))
